@@ -16,6 +16,7 @@ package marbl
 
 import (
 	"bufio"
+	"bytes"
 	"encoding/binary"
 	"fmt"
 	"io"
@@ -103,12 +104,12 @@ func (r *Reader) ReadFrame() (Frame, error) {
 
 		// nl and vl are untrusted 32-bit values whose sum may not fit in 32 bits, so the name and
 		// the value are read one after the other instead of sizing a single buffer from nl+vl.
-		name := make([]byte, nl)
-		if _, err := io.ReadFull(r.r, name); err != nil {
+		name, err := readN(r.r, nl)
+		if err != nil {
 			return nil, err
 		}
-		value := make([]byte, vl)
-		if _, err := io.ReadFull(r.r, value); err != nil {
+		value, err := readN(r.r, vl)
+		if err != nil {
 			return nil, err
 		}
 
@@ -136,9 +137,8 @@ func (r *Reader) ReadFrame() (Frame, error) {
 
 		dl := binary.BigEndian.Uint32(desc[5:])
 
-
-		data := make([]byte, int(dl))
-		if _, err := io.ReadFull(r.r, data); err != nil {
+		data, err := readN(r.r, dl)
+		if err != nil {
 			return nil, err
 		}
 
@@ -148,4 +148,36 @@ func (r *Reader) ReadFrame() (Frame, error) {
 	default:
 		return nil, fmt.Errorf("marbl: unknown type of frame")
 	}
+}
+
+// maxPrealloc is the largest payload buffer that is allocated before its bytes have been seen.
+const maxPrealloc = 64 << 10
+
+// readN reads exactly n bytes from r. It returns io.EOF if r is at its end and
+// io.ErrUnexpectedEOF if r ends before n bytes were read, like io.ReadFull.
+//
+// n comes from a length field of the stream, which may be corrupt or hostile. Payloads larger than
+// maxPrealloc are therefore read into a buffer that grows as the bytes arrive, so that a frame
+// costs memory in proportion to the bytes that are really in the stream, not to what its length
+// field claims: a 19-byte input announcing a 4 GiB payload yields io.ErrUnexpectedEOF instead of
+// a 4 GiB allocation (which ends the process with "fatal error: out of memory" where that much
+// memory is not available).
+func readN(r io.Reader, n uint32) ([]byte, error) {
+	if n <= maxPrealloc {
+		b := make([]byte, n)
+		if _, err := io.ReadFull(r, b); err != nil {
+			return nil, err
+		}
+		return b, nil
+	}
+
+	var buf bytes.Buffer
+	m, err := io.CopyN(&buf, r, int64(n))
+	if err == io.EOF && m > 0 {
+		err = io.ErrUnexpectedEOF
+	}
+	if err != nil {
+		return nil, err
+	}
+	return buf.Bytes(), nil
 }
